@@ -1,25 +1,21 @@
-//! C02: arbitrary bytes as a stream, cut by a mask taken from the input, FIN or open.
+//! libFuzzer entry for the `frames` target: see vcheck::fuzzing (shared with `vcheck fuzz-replay`).
+//! Aborts only on a violation that /verif/known_findings.json does not list.
 #![no_main]
 use libfuzzer_sys::fuzz_target;
-use vcheck::props::c02;
-use vcheck::report::{KnownFindings, Report};
+use vcheck::report::KnownFindings;
 
 fuzz_target!(|data: &[u8]| {
     static INIT: std::sync::Once = std::sync::Once::new();
     INIT.call_once(vcheck::panics::install_hook);
-    if data.len() < 10 || data.len() > 300 {
+    let prop = vcheck::fuzzing::property_of("frames").unwrap();
+    let viol = vcheck::fuzzing::run("frames", data);
+    if viol.is_empty() {
         return;
     }
-    let mask = u64::from_le_bytes([data[0], data[1], data[2], data[3], data[4], data[5], data[6], data[7]]);
-    let fin = data[8] & 1 == 1;
-    let pend = data[8] & 2 == 2;
-    let s = &data[9..];
-    let mut rep = Report::new();
-    c02::fuzz_one(s, mask, fin, pend, &mut rep);
-    if let Some(v) = rep.violations.first() {
-        let known = KnownFindings::load(Some("/verif/known_findings.json"));
-        if known.lookup("C02", &v.sig).is_none() {
-            eprintln!("VIOLATION property=C02 signature={} detail={}", v.sig, v.detail);
+    let known = KnownFindings::load(std::env::var("VCHECK_KNOWN").ok().as_deref().or(Some("/verif/known_findings.json")));
+    for (sig, detail) in viol {
+        if known.lookup(prop, &sig).is_none() {
+            eprintln!("VIOLATION property={} signature={} detail={}", prop, sig, detail);
             std::process::abort();
         }
     }
